@@ -186,3 +186,26 @@ pub fn c09_group_added_late(inp: &mut Inp) {
     core::mem::forget(attrs);
     reached();
 }
+
+//@ {"tier":"quick","unwind":2,"replay_tries":400,"desc":"a job operation addressed by job-uri (no printer-uri) with a user name and one more attribute: charset, language, then job-uri third, under all 6 orders of the free entries","sym":"i32; map order enumerated (6)"}
+pub fn c09_job_uri_third(inp: &mut Inp) {
+    let v = inp.i32();
+    let mut req = IppRequestResponse::new(IppVersion::v1_1(), Operation::GetJobAttributes, None);
+    req.attributes_mut().add(DelimiterTag::OperationAttributes, IppAttribute::new("requesting-user-name", IppValue::NameWithoutLanguage("u".to_string())));
+    req.attributes_mut().add(DelimiterTag::OperationAttributes, IppAttribute::new("job-uri", IppValue::Uri("ipp://h/j/1".to_string())));
+    req.attributes_mut().add(DelimiterTag::OperationAttributes, IppAttribute::new("aaa", IppValue::Integer(v)));
+    let mut j = 0;
+    while j < 6 {
+        set_order(order_tail(5, 3, j));
+        let b = req.to_bytes();
+        let mut w = Walk::start(&b);
+        assert!(name_is(w.next(), 0x47, "attributes-charset"), "first attribute is attributes-charset");
+        assert!(name_is(w.next(), 0x48, "attributes-natural-language"), "second attribute is attributes-natural-language");
+        assert!(name_is(w.next(), 0x45, "job-uri"), "third attribute is job-uri");
+        core::mem::forget(b);
+        j += 1;
+    }
+    set_order(0);
+    core::mem::forget(req);
+    reached();
+}
